@@ -89,7 +89,7 @@ def run(F, R, ctx):
     # the reuse routine itself must not push and must drain
     th = F.one(r"^steel::steel_vm::vm::" + TAIL_REUSE)
     R.inst("C09.a", "new_handle_tail_call_closure does not push a frame and drains the operand stack",
-           not push_blocks(th) and bool(th.call_blocks(r"Vec<T,A>\}::(drain|truncate)$")) and reach_push(th.name) is None,
+           not push_blocks(th) and bool(th.call_blocks(r"Vec<T,A>\}::(drain|truncate)$", wrappers=True)) and reach_push(th.name) is None,
            "new_handle_tail_call_closure pushes a frame or no longer removes the caller's operands", th.loc(), sample=True)
     ht = F.one(r"^steel::steel_vm::vm::\{impl VmCore\}::handle_tail_call$")
     sws = lib.enum_switches(ht, "SteelVal")
@@ -144,7 +144,7 @@ def run(F, R, ctx):
     cso = F.one(r"^steel::steel_vm::vm::\{impl VmCore\}::check_stack_overflow$")
     cmp_ = [e for _, _, e in cso.events("binop") if e[1] in ("Ge", "Gt", "Eq") and e[2] == "usize"]
     R.inst("C09.c", "check_stack_overflow compares the frame count and errors",
-           bool(cmp_) and bool(cso.call_blocks(r"\{impl SteelErr\}::new$")) and
+           bool(cmp_) and bool(cso.call_blocks(r"\{impl SteelErr\}::new$", wrappers=True)) and
            any(e[1] == "SteelThread" and e[2] == "stack_frames" for _, _, e in cso.events("fld")),
            "check_stack_overflow no longer compares stack_frames.len() with the limit and raises", cso.loc(), sample=True)
     dchk = [e for _, _, e in vm.events("binop") if e[1] in ("Gt", "Ge") and e[2] == "usize"]
@@ -160,9 +160,9 @@ def run(F, R, ctx):
         if n in allow:
             R.inst("C09.c", "%s (allowlisted)" % fn.short(), True, sample={"reason": allow[n]}, nontrivial=False)
             continue
-        a = bool(fn.call_blocks(r"\{impl VmCore\}::check_stack_overflow$"))
+        a = bool(fn.call_blocks(r"\{impl VmCore\}::check_stack_overflow$", wrappers=True))
         b = any(e[2] == "usize" and e[1] in ("Eq", "Ge", "Gt") and ("const:10000000" in (e[5], e[6])) for _, _, e in fn.events("binop"))
-        c = bool(fn.call_blocks(r"\{impl VmCore\}::call_with_instructions_and_reset_state$"))
+        c = bool(fn.call_blocks(r"\{impl VmCore\}::call_with_instructions_and_reset_state$", wrappers=True))
         R.inst("C09.c", "%s / frame push is depth-checked" % fn.short(), a or b or c,
                "%s pushes a StackFrame without check_stack_overflow, a STACK_LIMIT comparison or the depth-guarded "
                "re-entry: unbounded non-tail recursion through it overflows the host instead of raising" % fn.short(),
